@@ -176,6 +176,11 @@ def run_shard(args) -> dict:
                 raise PropertyViolation(tag)
 
     max_rounds = 6 if tier == "quick" else 10
+    # XSM_VERDICT_ONLY=1 (used by the seeded / mutant evaluations, which only need "detected or not"):
+    # the first violation of a shard is kept as generated - no shrinking, no further rounds
+    verdict_only = os.environ.get("XSM_VERDICT_ONLY") == "1"
+    if verdict_only:
+        max_rounds = 1
     try:
         for rnd in range(max_rounds):
             state["target"] = None
@@ -189,7 +194,7 @@ def run_shard(args) -> dict:
                 report_multiple_bugs=False,
                 derandomize=False,
                 suppress_health_check=list(HealthCheck),
-                phases=[Phase.generate] if getattr(check, "NO_SHRINK", False) else [Phase.generate, Phase.shrink],
+                phases=[Phase.generate] if (getattr(check, "NO_SHRINK", False) or verdict_only) else [Phase.generate, Phase.shrink],
                 print_blob=False,
             )(test)
             try:
@@ -197,8 +202,9 @@ def run_shard(args) -> dict:
                 break
             except PropertyViolation:
                 case, tag, detail = state["last"]
-                case, detail = _structural_shrink(check, case, tag, detail, case_timeout,
-                                                  20.0 if tier == "quick" else 60.0)
+                if not verdict_only:
+                    case, detail = _structural_shrink(check, case, tag, detail, case_timeout,
+                                                      20.0 if tier == "quick" else 60.0)
                 out["violations"].append({"tag": tag, "detail": detail, "case": case})
                 suppressed.add(tag)
             except Hang:
